@@ -233,10 +233,41 @@ pub fn generate(rng: &mut Rng) -> GenGrammar {
         out.push_str("Layout: LayoutItem*;\nLayoutItem: WS | Comment;\n");
     }
 
+    // a rule defined in two places (its alternatives are merged)
+    if rng.chance(1, 8) {
+        let r = rng.pick(&rules).clone();
+        let kw = kws[next_kw % kws.len()];
+        next_kw += 1;
+        if !used_kws.iter().any(|k| k == kw) {
+            used_kws.push(kw.to_string());
+        }
+        out.push_str(&format!("{r}: '{kw}' {};\n", re_terms[0].0));
+        tags.push("split-rule");
+    }
+
     out.push_str("\nterminals\n");
+    // two terminals with the same string recognizer: which one an inline
+    // match resolves to must not depend on anything but the grammar
+    let dup_before = rng.chance(1, 2);
+    let dups: Vec<usize> = if rng.chance(1, 4) && !used_kws.is_empty() {
+        tags.push("dup-recognizer");
+        (0..used_kws.len()).filter(|_| rng.chance(1, 3)).collect()
+    } else {
+        vec![]
+    };
+    if dup_before {
+        for &i in &dups {
+            out.push_str(&format!("Dup{}_{}: '{}';\n", i, if rng.chance(1, 2) { "a" } else { "Z" }, used_kws[i]));
+        }
+    }
     for (i, kw) in used_kws.iter().enumerate() {
         let prio = if rng.chance(1, 10) { format!(" {{{}}}", rng.range(1, 30)) } else { String::new() };
         out.push_str(&format!("{}: '{}'{};\n", kw_name(kw, i), kw, prio));
+    }
+    if !dup_before {
+        for &i in &dups {
+            out.push_str(&format!("Dup{}_{}: '{}';\n", i, if rng.chance(1, 2) { "a" } else { "Z" }, used_kws[i]));
+        }
     }
     for (n, r) in &re_terms {
         let meta = if rng.chance(1, 10) { " {prefer}" } else { "" };
